@@ -206,11 +206,24 @@ def run(ctx):
         if algo != "T_HOO":
             tmp = Ctx(ctx.prop, ctx.tier, ctx.seed, model)
             c05.check_tau(tmp, algo)
+            c05.delta_sites(tmp, algo, rule="R06-TAU", only_tau=True)
             for o in tmp.obligations:
                 ctx.obligations.append(dict(o, rule="R06-TAU"))
             for f in tmp.findings:
                 ctx.add_finding("R06-TAU", f.file, f.qual, f.construct, f.why, f.line)
             ctx.functions |= tmp.functions
+            ctx.shortfalls += tmp.shortfalls
+    # the quantities the predicate compares are the empirical ones: pull count (and, for VHCT, the clipped empirical variance)
+    from . import c04
+    tmp = Ctx(ctx.prop, ctx.tier, ctx.seed, model)
+    c04.check_node_classes(tmp, only=sorted(TREE_ALGOS.values()))
+    for o in tmp.obligations:
+        ctx.obligations.append(dict(o, rule="R06-STAT"))
+    for f in tmp.findings:
+        if f.construct.startswith(("self.visited_times", "self.variance", "variance floor", "recording")) or f.construct == "update_reward":
+            ctx.add_finding("R06-STAT", f.file, f.qual, f.construct, f.why, f.line)
+    ctx.functions |= tmp.functions
+    ctx.shortfalls += tmp.shortfalls
     return dict(
         explanation=(
             "For T-HOO, HCT, VHCT: SITE - the code reachable from receive_reward contains exactly one expansion call, outside any loop, "
